@@ -32,7 +32,10 @@ func (n *nodeMemberManager) NotifyGossipLeave(id uint64) {
 	for _, session := range sessions {
 		lwt := session.LWT
 		if lwt != nil {
-			n.log.Append(lwt)
+			// the will topic is stored as the client wrote it: publish it inside the session's mount point
+			will := *lwt
+			will.Topic = append([]byte(session.MountPoint+"/"), lwt.Topic...)
+			n.log.Append(&will)
 		}
 	}
 	go func() {
